@@ -6,11 +6,14 @@ import sys
 sys.path.insert(0, os.path.dirname(os.path.abspath(__file__)))
 import common  # noqa: E402
 
-GENERATORS = {'gen_c02': 'NautilusVerif/Generated/C02.lean', 'gen_c11': 'NautilusVerif/Generated/C11.lean', 'gen_c08': 'NautilusVerif/Generated/C08.lean', 'gen_c07': 'NautilusVerif/Generated/C07.lean', 'gen_c05': 'NautilusVerif/Generated/C05.lean', 'gen_c09': 'NautilusVerif/Generated/C09.lean', 'gen_c16': 'NautilusVerif/Generated/C16.lean', 'gen_c14': 'NautilusVerif/Generated/C14.lean'}
+GENERATORS = {'gen_c02': 'NautilusVerif/Generated/C02.lean', 'gen_c11': 'NautilusVerif/Generated/C11.lean', 'gen_c08': 'NautilusVerif/Generated/C08.lean', 'gen_c07': 'NautilusVerif/Generated/C07.lean', 'gen_c05': 'NautilusVerif/Generated/C05.lean', 'gen_c09': 'NautilusVerif/Generated/C09.lean', 'gen_c16': 'NautilusVerif/Generated/C16.lean', 'gen_c14': 'NautilusVerif/Generated/C14.lean', 'gen_core': 'NautilusVerif/Generated/CoreSrc.lean'}
 MODULES = ['nvdriver', 'NautilusVerif.Properties.C16', 'NautilusVerif.Properties.C16Tie', 'NautilusVerif.Properties.C14',
            'NautilusVerif.Properties.C14Tie',
            'NautilusVerif.Properties.C15', 'NautilusVerif.Properties.C13', 'NautilusVerif.Properties.C01',
-           'NautilusVerif.Properties.C02', 'NautilusVerif.Properties.C03', 'NautilusVerif.Properties.C10', 'NautilusVerif.Properties.C12', 'NautilusVerif.Properties.C09Tie', 'NautilusVerif.Properties.C05', 'NautilusVerif.Properties.C05Tie', 'NautilusVerif.Properties.C06', 'NautilusVerif.Properties.C07', 'NautilusVerif.Properties.C07Tie', 'NautilusVerif.Properties.C08', 'NautilusVerif.Properties.C08Tie', 'NautilusVerif.Properties.C11', 'NautilusVerif.Properties.C11Tie', 'NautilusVerif.Properties.C04', 'NautilusVerif.Properties.C10Run', 'NautilusVerif.Properties.C02Est', 'NautilusVerif.Properties.C02EstTie']
+           'NautilusVerif.Properties.C02', 'NautilusVerif.Properties.C03', 'NautilusVerif.Properties.C10', 'NautilusVerif.Properties.C12', 'NautilusVerif.Properties.C09Tie', 'NautilusVerif.Properties.C05', 'NautilusVerif.Properties.C05Tie', 'NautilusVerif.Properties.C06', 'NautilusVerif.Properties.C07', 'NautilusVerif.Properties.C07Tie', 'NautilusVerif.Properties.C08', 'NautilusVerif.Properties.C08Tie', 'NautilusVerif.Properties.C11', 'NautilusVerif.Properties.C11Tie', 'NautilusVerif.Properties.C04', 'NautilusVerif.Properties.C10Run', 'NautilusVerif.Properties.C02Est', 'NautilusVerif.Properties.C02EstTie',
+           'NautilusVerif.Properties.CoreRun', 'NautilusVerif.Properties.C08Buf', 'NautilusVerif.Properties.C03Eval']
+MODULES += ['NautilusVerif.Properties.CoreTie.' + f[:-5] for f in sorted(os.listdir(os.path.join(common.LEAN, 'NautilusVerif', 'Properties', 'CoreTie')))
+            if f.endswith('.lean')]
 
 
 def main():
